@@ -29,15 +29,23 @@ def main():
     allp = "--all-props" in args
     sys.path.insert(0, os.path.join(ROOT, "checklib"))
     import props as P
-    ids = sorted(d for d in os.listdir(os.path.join(ROOT, "seeded")) if os.path.exists(os.path.join(ROOT, "seeded", d, "patch.diff")))
+    base = os.path.join(ROOT, "seeded")
+    harmless = "--harmless" in args
+    if harmless:
+        # behaviour-preserving rewrites: every claimed check must stay quiet
+        base = os.path.join(ROOT, "seeded", "harmless")
+        allp = True
+        if "--out" not in args:
+            out = os.path.join(ROOT, "seeded", "HARMLESS.json")
+    ids = sorted(d for d in os.listdir(base) if os.path.exists(os.path.join(base, d, "patch.diff")))
     res = {}
     if os.path.exists(out):
         res = json.load(open(out))
     for sid in ids:
         if only and sid not in only:
             continue
-        meta = json.load(open(os.path.join(ROOT, "seeded", sid, "meta.json")))
-        patch = os.path.join(ROOT, "seeded", sid, "patch.diff")
+        meta = json.load(open(os.path.join(base, sid, "meta.json")))
+        patch = os.path.join(base, sid, "patch.diff")
         subprocess.run(["git", "-C", repo, "checkout", "--", "."], check=True)
         r = subprocess.run(["git", "-C", repo, "apply", patch], capture_output=True, text=True)
         if r.returncode != 0:
@@ -45,7 +53,7 @@ def main():
             print(sid, "PATCH-FAILS", flush=True)
             continue
         props = sorted(P.CLAIMED) if allp else [meta["property"]]
-        entry = res.setdefault(sid, {"property": meta["property"], "checks": {}})
+        entry = res.setdefault(sid, {"property": meta.get("property"), "checks": {}})
         try:
             for p in props:
                 t0 = time.time()
@@ -66,11 +74,14 @@ def main():
                 print(sid, p, "rc=%d" % r.returncode, (lines[0][:120] if lines else ""), flush=True)
         finally:
             subprocess.run(["git", "-C", repo, "checkout", "--", "."])
-        entry["caught_by"] = sorted(p for p, v in entry["checks"].items() if v["rc"] == 1)
+        entry["caught_by"] = sorted(p for p, v in entry["checks"].items() if v["rc"] != 0)
         json.dump(res, open(out, "w"), indent=1, sort_keys=True)
     subprocess.run(["git", "-C", ROOT, "checkout", "--", "evidence"])
-    missed = [s for s, v in res.items() if not v.get("caught_by")]
-    print("MISSED:", ",".join(missed) or "none")
+    if harmless:
+        print("FALSE-ALARMS:", ",".join("%s:%s" % (s, "+".join(v["caught_by"])) for s, v in res.items() if v.get("caught_by")) or "none")
+    else:
+        missed = [s for s, v in res.items() if not v.get("caught_by")]
+        print("MISSED:", ",".join(missed) or "none")
     return 0
 
 
